@@ -134,6 +134,8 @@ func errPropagates(c *Ctx, rule, key string, fn *ssa.Function, call *ssa.Call, i
 
 func runC01(c *Ctx) {
 	p := c.P
+	// shared rule: an object counts as present only together with its size (rules_c09.go)
+	objectPresenceRule(c, "R8", getStoreFlow(p))
 	ctt := p.Fn("lfs", "(*GitFilter).copyToTemp")
 	cleanF := p.Fn("lfs", "(*GitFilter).Clean")
 	clean := p.Fn("commands", "clean")
